@@ -20,9 +20,10 @@ type PairC12 struct {
 }
 
 type CaseC12 struct {
-	Map   map[string]interface{} `json:"map"`
-	Pairs []PairC12              `json:"pairs"`
-	Unrelated uint16             `json:"unrelated_opts,omitempty"`
+	Map       map[string]interface{} `json:"map"`
+	Pairs     []PairC12              `json:"pairs"`
+	Unrelated uint16                 `json:"unrelated_opts,omitempty"`
+	FieldSep  string                 `json:"field_sep,omitempty"` // sub-key field separator in force (NewMap pairs always use ":")
 }
 
 func init() { register("C12", checkC12) }
@@ -82,6 +83,9 @@ func genC12(t *rapid.T) CaseC12 {
 		c.Pairs = append(c.Pairs, p)
 	}
 	c.Unrelated = genUnrelated(t)
+	if rapid.IntRange(0, 3).Draw(t, "fieldsep") == 0 {
+		c.FieldSep = rapid.SampledFrom([]string{"|", "::", "."}).Draw(t, "fsep")
+	}
 	return c
 }
 
@@ -122,6 +126,10 @@ func checkC12(c CaseC12, info *Info) *Failure {
 	}
 	defer resetOptions()
 	applyUnrelatedOptions(c.Unrelated)
+	if c.FieldSep != "" {
+		mxj.SetFieldSeparator(c.FieldSep)
+		info.Class("non-default sub-key field separator in force")
+	}
 	info.ClassIf(c.Unrelated != 0, "unrelated options switched on")
 	subject := copyMap(c.Map)
 	js := canon(c.Map)
